@@ -38,9 +38,9 @@ func VerifC12CidxOpen() {
 		verifKnownFinding("C12-cidx-size-wrap", magicOK && size >= 0xFFFFFFF4)
 		verifKnownFinding("C12-cidx-size-alloc", magicOK && size > uint32(limit-12) && size < 0xFFFFFFF4)
 		if N >= 26 {
-			// metadata: arbitrary bytes, but at most one key-value pair is announced (the
+			// metadata: arbitrary bytes, but no key-value pair is announced (the
 			// metadata decoder over arbitrary bytes is C12.meta)
-			verifAssume(data[25] <= 1)
+			verifAssume(data[25] == 0)
 		}
 	}
 	db, err := Open(bytes.NewReader(data))
